@@ -40,8 +40,14 @@ def echo_program(r, hazards=None):
     lines = []
     funcs = []  # (name, nparams, ret, depth)
     nf = r.randint(1, 4)
+    # identifier schemes: plain, or helper names that END with the name of a later function (pre_tick / tick): label
+    # handling that matches '<name>end' by suffix must not confuse the two
+    scheme = None
+    if r.random() < 0.35:
+        base = r.sample(["tick", "update", "run", "step"], 2)
+        scheme = ([f"pre_{base[0]}", base[0], f"do_{base[1]}", base[1]])[:nf] if nf >= 2 else None
     for k in range(nf):
-        name = f"fn{k}"
+        name = scheme[k] if scheme else f"fn{k}"
         npar = r.choice([0, 1, 1, 2, 2, 3, 3, 4, 5, 6])
         ret = r.random() < 0.7
         params = [f"p{k}_{j}" for j in range(npar)]
